@@ -362,7 +362,9 @@ def rule_R10(body, arg=None):
 def rule_R11(body, arg=None):
     """std calls without a vstd specification are routed through helpers carrying the std-documented
     contract: `X.reverse()` -> `vec_reverse(&mut X)`."""
-    return re.subn(r"\b(\w+)\.reverse\(\)", r"vec_reverse(&mut \1)", body)
+    body, n = re.subn(r"\b(\w+)\.reverse\(\)", r"vec_reverse(&mut \1)", body)
+    body, k = re.subn(r"std::mem::take\(", "mem_take_vec(", body)
+    return body, n + k
 
 
 def rule_R6n(body, arg=None):
@@ -405,7 +407,12 @@ def rule_R13(body, arg):
     return re.subn(pat, "let __v = %s; for __k in __it: 0..__v.len() { let %s = __v[__k];" % (v, x), body)
 
 
-RULES = {"R13": rule_R13, "R4d": rule_R4d, "R12": rule_R12, "R1p": rule_R1p, "R6n": rule_R6n, "R10": rule_R10, "R11": rule_R11, "R1": rule_R1, "R2": rule_R2, "R3": rule_R3, "R4": rule_R4, "R6": rule_R6, "R7": rule_R7, "R8": rule_SUB}
+def rule_R4s(body, arg=None):
+    """`X.shrink_to_fit();` is dropped: it only changes capacity (no vstd specification, no observable effect)"""
+    return re.subn(r"[\w\.]+\.shrink_to_fit\(\);", "", body)
+
+
+RULES = {"R4s": rule_R4s, "R13": rule_R13, "R4d": rule_R4d, "R12": rule_R12, "R1p": rule_R1p, "R6n": rule_R6n, "R10": rule_R10, "R11": rule_R11, "R1": rule_R1, "R2": rule_R2, "R3": rule_R3, "R4": rule_R4, "R6": rule_R6, "R7": rule_R7, "R8": rule_SUB}
 
 
 def apply_rules(body, rules, counts):
@@ -413,7 +420,7 @@ def apply_rules(body, rules, counts):
         r = r.strip()
         if not r:
             continue
-        m = re.match(r"(R\d+[npd]?)(?:\[(.*)\])?$", r, re.S)
+        m = re.match(r"(R\d+[npds]?)(?:\[(.*)\])?$", r, re.S)
         if not m or m.group(1) not in RULES:
             raise ValueError("unknown rule %r" % r)
         body, n = RULES[m.group(1)](body, m.group(2))
@@ -501,7 +508,7 @@ def build_unit(template_path, src_dir, verus_dir):
             preloops[int(m.group(1))] = preloops.get(int(m.group(1)), "") + " " + m.group(2)
         elif s.startswith("//@VACUITY"):
             out.append("/*@VACUITY*/")
-        elif s.startswith("//@BODY") or s.startswith("//@ARM") or s.startswith("//@MACROFN"):
+        elif s.startswith("//@BODY") or s.startswith("//@ARM") or s.startswith("//@MACROFN") or s.startswith("//@PREFIX"):
             kind = s.split()[0][3:]
             kv = parse_kv(s[len(kind) + 3:])
             text, mask = load(kv["file"])
@@ -513,6 +520,17 @@ def build_unit(template_path, src_dir, verus_dir):
                     raise LostAnchor("signature of %s changed: `%s` (unit expects `%s`)" % (kv["fn"], sig, norm(kv["sig"])))
                 body = text[bo + 1:bc]
                 where = "%s:%s (lines %d-%d)" % (kv["file"], kv["fn"], text.count("\n", 0, bo) + 1, text.count("\n", 0, bc) + 1)
+            elif kind == "PREFIX":
+                # the statements of a function from its first line up to (not including) the text `until`
+                fs, bo, bc = find_fn(text, mask, kv["fn"], kv.get("impl"))
+                sig = norm(text[fs:bo])
+                if "sig" in kv and norm(kv["sig"]) != sig:
+                    raise LostAnchor("signature of %s changed: `%s` (unit expects `%s`)" % (kv["fn"], sig, norm(kv["sig"])))
+                cut = text.find(kv["until"], bo, bc)
+                if cut < 0:
+                    raise LostAnchor("prefix marker `%s` not found in %s" % (kv["until"], kv["fn"]))
+                body = text[bo + 1:cut]
+                where = "%s:%s prefix up to `%s` (lines %d-%d)" % (kv["file"], kv["fn"], kv["until"], text.count("\n", 0, bo) + 1, text.count("\n", 0, cut) + 1)
             elif kind == "ARM":
                 fs, bo, bc = find_fn(text, mask, kv["fn"], kv.get("impl"))
                 k, a, b = find_arm(text, mask, bo, bc, kv["arm"])
@@ -546,6 +564,16 @@ def build_unit(template_path, src_dir, verus_dir):
                 body = tr[bo + 1:bc]
                 meta["rules"]["R5"] = meta["rules"].get("R5", 0) + 1
                 where = "%s:%s!(%s)" % (kv["file"], kv["macro"], kv["args"])
+            if kind == "PREFIX":
+                # local macro_rules! definitions inside the prefix are dropped (they are expanded where they are used)
+                while True:
+                    mm = re.search(r"macro_rules!\s+\w+\s*\{", body)
+                    if not mm:
+                        break
+                    bm2 = code_mask(body)
+                    c2 = match_close(body, bm2, mm.end() - 1)
+                    body = body[:mm.start()] + body[c2 + 1:]
+                    meta["rules"]["R4m"] = meta["rules"].get("R4m", 0) + 1
             body, nexp = expand_macro_calls(body, text, mask)
             if nexp:
                 meta["rules"]["R5"] = meta["rules"].get("R5", 0) + nexp
